@@ -57,13 +57,16 @@ pub fn gen_profile(rng: &mut Rng, focus: Focus, thorough: bool) -> Profile {
     if thorough && rng.chance(0.002) {
         steps = 8760;
     }
-    let n_systems = match rng.below(10) {
+    let mut n_systems = match rng.below(10) {
         0..=2 => 1,
         3..=5 => 2,
         6..=7 => 3,
         8 => 4,
         _ => 1 + rng.usize(6),
     };
+    if thorough && rng.chance(0.01) {
+        n_systems = 10 + rng.usize(40); // a large installation: hundreds of lines (ids repeat: the pool is small)
+    }
     let mut p = Profile {
         steps,
         n_systems,
@@ -168,7 +171,15 @@ fn print_values(rng: &mut Rng, p: &Profile, ks: &[i64]) -> Vec<String> {
     ks.iter()
         .map(|&k| {
             let mut t = fmt_hundredths(k, style);
-            if p.f_more_decimals && k != 0 && rng.chance(0.5) {
+            if p.f_more_decimals && k != 0 && rng.chance(0.12) {
+                // values on a rounding boundary of the printed precision
+                if !t.contains('.') {
+                    t.push_str(".00");
+                } else if t.len() - t.find('.').unwrap() == 2 {
+                    t.push('0');
+                }
+                t.push_str(*rng.pick(&["5", "49999", "50001", "4", "500000"][..]));
+            } else if p.f_more_decimals && k != 0 && rng.chance(0.5) {
                 // extra decimals: a separately counted class (printed precision is then lossy)
                 if !t.contains('.') {
                     t.push_str(".0");
@@ -595,6 +606,11 @@ pub fn gen_layout(rng: &mut Rng, n_lines: usize) -> Layout {
     if rng.chance(0.3) {
         let k = 1 + rng.usize(3);
         lay.meta_pos = (0..k).map(|_| rng.usize(n_lines + 1)).collect();
+    }
+    if rng.chance(0.04) {
+        // file sizes at and next to typical buffer sizes
+        let base = *rng.pick(&[512usize, 1024, 4096, 8192, 16384, 32768, 65536]);
+        lay.pad_to = Some((base as i64 + rng.range(-2, 2)) as usize);
     }
     lay
 }
